@@ -2,4 +2,6 @@
 EXTENDS Pipeline
 MCDgrams == {<<"data",1>>, <<"tpl",2>>, <<"bad",3>>}
 MCDgrams2 == {<<"data",1>>, <<"data",2>>}
+MCDgrams3 == {<<"data",1>>, <<"data",2>>, <<"data",3>>}
+MCTrue == TRUE
 ====
